@@ -171,12 +171,13 @@ func runBounded(repo, verif, prop, pkg, test, file, tier string, seed int) bound
 	ovData, _ := json.Marshal(ov)
 	ovFile := filepath.Join(tmp, "overlay.json")
 	os.WriteFile(ovFile, ovData, 0o644)
+	outFile := filepath.Join(tmp, "out.txt")
 	timeout := "300s"
 	if tier == "thorough" {
 		timeout = "3000s"
 	}
-	cmd := fmt.Sprintf("ulimit -v 8000000; VERIF_TIER=%s VERIF_SEED=%d GOCACHE=%s go test -v -overlay %s -vet=off -count=1 -timeout %s -run '^%s$' ./%s 2>&1 | tail -n 200",
-		tier, seed, filepath.Join(verif, "work", "gocache"), ovFile, timeout, test, pkg)
+	cmd := fmt.Sprintf("ulimit -v 8000000; VERIF_TIER=%s VERIF_SEED=%d GOCACHE=%s go test -v -overlay %s -vet=off -count=1 -timeout %s -run '^%s$' ./%s > %s 2>&1; if [ $(wc -l < %s) -gt 300 ]; then head -n 100 %s; echo '[... output shortened ...]'; tail -n 200 %s; else cat %s; fi",
+		tier, seed, filepath.Join(verif, "work", "gocache"), ovFile, timeout, test, pkg, outFile, outFile, outFile, outFile, outFile)
 	out, _ := shell(cmd, repo, 3600)
 	res := boundedResult{Output: trunc(out, 8000), Seconds: time.Since(t0).Seconds()}
 	if m := reCases.FindStringSubmatch(out); m != nil {
